@@ -274,11 +274,72 @@ def enum_markers(tier, shard, nshards, rng):
             yield dict(kind="marker", key=_rand(rng, 16), payload=_rand(rng, rng.randrange(0, 60)), marker=m)
 
 
+def check_interleave(case, rec):
+    """two SEPARATE encryptor objects (different keys, payloads, customer keys) wrap and unwrap 'at the same time': A stopped before every source
+    line of the library's container code while a complete wrap+unwrap of B runs there (vlib/interleave); both must give their sequential results"""
+    import sys as _sys
+
+    import register_crypto_plugin as _plug
+    from vlib import interleave
+
+    rec.nt()
+    codes = interleave.codes_of([_sys.modules["bec2format.bec2file"], _sys.modules["bec2format.crypto"], _plug])
+
+    def maker(key, ck, pos, payload):
+        def make():
+            e = B2.SoftwareCustKeyEncryptor(key, ck, pos if ck else None)
+            p = bytearray(payload)
+
+            def op():
+                ct = e.encrypt(bytes(p))
+                return bytes(ct), bytes(e.decrypt(ct))
+
+            return op
+
+        return make
+
+    def expected(key, ck, pos, payload):
+        p = bytearray(payload)
+        if ck:
+            p[pos: pos + 10] = ck
+        blank = bytearray(p)
+        if ck:
+            blank[pos: pos + 10] = bytes(10)
+        return M.container_wrap(key, bytes(p)), bytes(blank)
+
+    a = (case["ka"], case["cka"], 0, case["pa"])
+    b = (case["kb"], case["ckb"], case["posb"] % (len(case["pb"]) - 9), case["pb"])
+    wa, wb = expected(*a), expected(*b)
+    ra, _, n, _ = interleave.run(maker(*a), maker(*b), codes, -1)
+    if ra != wa:
+        raise Violation("sequential wrap/unwrap with a customer key differs from the model: %r vs %r" % (ra, wa))
+    if n < 5:
+        from vlib.core import HarnessError
+
+        raise HarnessError("only %d line events in the container code" % n)
+    rec.cls("interleave.points", n)
+    for i in range(n):
+        try:
+            ra, rb, _, ran = interleave.run(maker(*a), maker(*b), codes, i)
+        except Exception as e:
+            raise Violation("encryptor A preempted at line event %d of %d by a complete wrap+unwrap on ANOTHER encryptor object: %s: %s" % (i, n, type(e).__name__, e))
+        if ra != wa or (ran and rb != wb):
+            raise Violation("two separate encryptor objects interleaved (A stopped at line event %d of %d): %s result differs from its sequential result" % (
+                i, n, "A's" if ra != wa else "B's"))
+
+
+def strat_interleave(tier):
+    b16 = st.binary(min_size=16, max_size=16)
+    ck = st.one_of(st.none(), st.binary(min_size=10, max_size=10))
+    return st.fixed_dictionaries(dict(ka=b16, kb=b16, cka=ck, ckb=ck, posb=st.integers(0, 200), pa=st.binary(min_size=10, max_size=60), pb=st.binary(min_size=10, max_size=60)))
+
+
 def parts(tier):
     return [
         Part("lengths", check=check_frame, enum=enum_lengths, quick=(16, 0), thorough=(16, 0), exhaustive=True),
         Part("crcbytes", check=check_frame, enum=enum_crcbytes, quick=(8, 0), thorough=(8, 0), exhaustive=True),
         Part("custkey", check=check_custkey, enum=enum_custkey, quick=(4, 0), thorough=(16, 0), exhaustive=True),
         Part("markers", check=check_negative, enum=enum_markers, quick=(2, 0), thorough=(2, 0), exhaustive=True),
+        Part("interleave", check=check_interleave, strategy=strat_interleave, quick=(8, 3), thorough=(16, 20)),
         Part("negative", check=check_negative, strategy=strat_negative, quick=(8, 150), thorough=(16, 3000)),
     ]
